@@ -38,7 +38,7 @@ def run(rep, tier, seed):
         nsrc = rng.choice([1, 1, 2, 3])
         sources = []
         for i in range(nsrc):
-            kind = rng.choice(["mem", "file", "rec"])
+            kind = rng.choice(["mem", "file", "rec", "mem", "file", "rec", "fail"])      # fail: a source whose Write fails
             sources.append({"name": "main" if i == 0 else "s%d" % (i + 1), "kind": kind,
                             "lines": [rng.choice(PRIOR) for _ in range(rng.randint(0, 3))]})
         inputrc = ("set editing-mode vi\n" if mode == "vi" else "") + ("set history-size %d\n" % size if size is not None else "")
@@ -85,7 +85,7 @@ def run(rep, tier, seed):
         return out
 
     run_session_property(rep, cases, proj, "HistoryTrace", "HistoryTrace.cfg", "c08-run", nontrivial=nontrivial)
-    rep.rule = ("Shells with 1..3 bound sources (in-memory, file-backed, recording wrapper) holding 0..3 prior entries, history-size in {unset, 0, 1, "
+    rep.rule = ("Shells with 1..3 bound sources (in-memory, file-backed, recording wrapper, a source whose writes fail) holding 0..3 prior entries, history-size in {unset, 0, 1, "
                 "2, 5, 50}, 1..3 Readline calls each typing a line from {empty, blank, x, ' x ', y, ...} and leaving by accept-line, "
                 "accept-and-hold, operate-and-get-next, accept-and-infer-next-history, completed multi-line accept, interrupt or EOF; "
                 "non-trivial = distinct (configuration, resulting source contents)")
